@@ -118,6 +118,47 @@ func presence(m protoreflect.Message, b *strings.Builder) {
 	b.WriteByte('}')
 }
 
+// sharedPointers counts the message objects that are reachable more than once
+// inside m (the same pointer stored at two places). The annotated tree is an
+// abstraction of a tree-shaped object graph only; a shared sub-object means a
+// later patch of one element changes another.
+func sharedPointers(m proto.Message) int {
+	seen := map[proto.Message]int{}
+	var rec func(x protoreflect.Message)
+	rec = func(x protoreflect.Message) {
+		if !x.IsValid() {
+			return
+		}
+		seen[x.Interface()]++
+		if seen[x.Interface()] > 1 {
+			return
+		}
+		fs := x.Descriptor().Fields()
+		for i := 0; i < fs.Len(); i++ {
+			f := fs.Get(i)
+			if f.Message() == nil || f.IsMap() || !x.Has(f) {
+				continue
+			}
+			if f.IsList() {
+				l := x.Get(f).List()
+				for j := 0; j < l.Len(); j++ {
+					rec(l.Get(j).Message())
+				}
+				continue
+			}
+			rec(x.Get(f).Message())
+		}
+	}
+	rec(m.ProtoReflect())
+	n := 0
+	for _, c := range seen {
+		if c > 1 {
+			n++
+		}
+	}
+	return n
+}
+
 func presenceOf(m proto.Message) string {
 	var b strings.Builder
 	presence(m.ProtoReflect(), &b)
@@ -290,6 +331,10 @@ func runBehaviour(pool *Pool, b Behaviour) map[string]any {
 		eq, det, has := before.same(res)
 		rec["eq"], rec["det"], rec["has"] = eq, det, has
 		rec["veq"], rec["vdet"], rec["vhas"] = true, true, true
+		rec["dup"] = 0
+		if !rep.Timeout && (out["k"] == "ok" || !eq || !det || !has) {
+			rec["dup"] = sharedPointers(res)
+		}
 		if val != nil {
 			rec["veq"], rec["vdet"], rec["vhas"] = vbefore.same(val)
 		}
